@@ -122,7 +122,8 @@ func (t *Trie) getWithPath(curr Node, path []byte, strict bool) (Node, Node, []b
 
 	case *ExtensionNode:
 		if len(path) == 0 && !strict {
-			return curr, n.next, n.key, nil
+			// The caller gets a path of its own, n.key can share its underlying array with other keys.
+			return curr, n.next, slices.Clone(n.key), nil
 		}
 		if bytes.HasPrefix(path, n.key) {
 			r, res, prefix, err := t.getWithPath(n.next, path[len(n.key):], strict)
@@ -135,7 +136,7 @@ func (t *Trie) getWithPath(curr Node, path []byte, strict bool) (Node, Node, []b
 		}
 		if !strict && bytes.HasPrefix(n.key, path) {
 			// path is shorter than prefix, stop seeking
-			return curr, n.next, n.key, nil
+			return curr, n.next, slices.Clone(n.key), nil
 		}
 	default:
 		panic("invalid MPT node type")
